@@ -292,7 +292,15 @@ func (c *RollingFileAppender) createFile(formatTime string) (string, *os.File, e
 
 // clearExpiredFiles removes log files older than MaxAge.
 func (c *RollingFileAppender) clearExpiredFiles() {
-	expiration := time.Now().Add(-time.Duration(c.MaxAge) * time.Hour)
+	// MaxAge is a number of hours; beyond about 292 years the product no longer
+	// fits a time.Duration and would wrap around, which can put the cut-off into
+	// the future (every file, including the current one, would then be deleted).
+	const maxDuration = time.Duration(1<<63 - 1)
+	maxAge := maxDuration
+	if int64(c.MaxAge) <= int64(maxDuration/time.Hour) {
+		maxAge = time.Duration(c.MaxAge) * time.Hour
+	}
+	expiration := time.Now().Add(-maxAge)
 	entries, _ := os.ReadDir(c.FileDir)
 	for _, entry := range entries {
 		if entry.IsDir() {
